@@ -163,6 +163,11 @@ func c20Classes(f *c20Field) (cs []string) {
 	if f.Path == "ratelimit/connection_limit/resume" {
 		return append(num, "incons")
 	}
+	if f.Kind == "size" {
+		// a size has no sign in its grammar: "-1KB" is a malformed token like
+		// "abc", not a value of the field
+		return []string{"missing", "zero", "one", "typ", "huge"}
+	}
 	return num
 }
 
@@ -239,8 +244,6 @@ func c20Concrete(f *c20Field, c, dist string, rng *rand.Rand, stop string) (val 
 		}
 	case "size":
 		switch c {
-		case "neg":
-			return pick("-1KB", "-1"), false
 		case "zero":
 			return pick("0", "0B", "0KB"), false
 		case "one":
@@ -319,7 +322,20 @@ func c20LoadDist(t testing.TB) (y *c20Yaml) {
 		t.Fatal(err)
 	}
 	y = &c20Yaml{at: map[string]int{}, dist: map[string]string{}}
-	y.lines = strings.Split(string(b), "\n")
+	text := string(b)
+	// Environment adaptation (like the environment variables): the upstream
+	// and fallback addresses of the example are public resolvers, which the
+	// initial health check of forward.NewHandler would wait for.
+	for old, repl := range map[string]string{
+		"'tcp://1.1.1.1:53'": "'tcp://127.0.0.1:1'", "'8.8.4.4:53'": "'127.0.0.1:1'",
+		"'1.1.1.1:53'": "'127.0.0.2:1'", "'8.8.8.8:53'": "'127.0.0.3:1'",
+	} {
+		if !strings.Contains(text, "address: "+old) {
+			t.Fatalf("config.dist.yaml: upstream address %s not found", old)
+		}
+		text = strings.Replace(text, "address: "+old, "address: "+repl, 1)
+	}
+	y.lines = strings.Split(text, "\n")
 	type ent struct {
 		indent int
 		key    string
@@ -440,11 +456,18 @@ type c20Event struct {
 func c20Named(errText string, muts []c20Mut, lineOf map[string]int) (named []string, full bool) {
 	named = []string{}
 	full = true
+	word := func(w string) bool {
+		return regexp.MustCompile(`(^|[^A-Za-z0-9_])` + regexp.QuoteMeta(w) + `([^A-Za-z0-9_]|$)`).MatchString(errText)
+	}
 	for _, mu := range muts {
 		parts := strings.Split(mu.F, "/")
 		leaf := parts[len(parts)-1]
-		re := regexp.MustCompile(`(^|[^A-Za-z0-9_])` + regexp.QuoteMeta(leaf) + `([^A-Za-z0-9_]|$)`)
-		ok := re.MatchString(errText)
+		ok := word(leaf)
+		if !ok && lineOf[mu.F] == 0 && len(parts) >= 2 && strings.HasSuffix(errText, parts[len(parts)-2]+": no value") {
+			// the line was removed and with it the last property of the
+			// enclosing object, which is then reported as missing
+			ok = true
+		}
 		if !ok {
 			if n := lineOf[mu.F]; n > 0 && regexp.MustCompile(`line `+strconv.Itoa(n)+`([^0-9]|$)`).MatchString(errText) {
 				ok = true
@@ -495,6 +518,7 @@ type c20Env struct {
 	tlsSrv *tls.Config
 	yaml   *c20Yaml
 	rng    *rand.Rand
+	force  map[string]string // focus mode: concrete values
 }
 
 func c20Setup(t *testing.T) (e *c20Env) {
@@ -584,6 +608,9 @@ func (e *c20Env) concretise(abs []c20Abs) (muts []c20Mut, dels map[string]bool) 
 			e.t.Fatalf("field %s not found in config.dist.yaml", a.F.Path)
 		}
 		v, del := c20Concrete(a.F, a.C, dist, e.rng, stop)
+		if fv, ok := e.force[a.F.Path]; ok && !del {
+			v = fv
+		}
 		if a.F.Path == "ratelimit/connection_limit/stop" {
 			stop = v
 			if del {
@@ -735,8 +762,13 @@ func (e *c20Env) exRateLimit(c *configuration) (unsafe []string) {
 	}); u != "" {
 		return []string{u}
 	}
+	// Only the first IPv4 and the first IPv6 request of the limiter's life must
+	// pass: later clients may legitimately share a bucket with earlier ones.
+	first := map[bool]bool{}
 	for _, cl := range []string{"1.2.3.4", "203.0.113.77", "2001:db8::1", "2a00:1450:4001:81b::200e", "127.0.0.1"} {
 		ip := netip.MustParseAddr(cl)
+		mustPass := !first[ip.Is4()]
+		first[ip.Is4()] = true
 		req := c20Msg("rl.example.", dns.TypeA, nil)
 		small := (&dns.Msg{}).SetReply(req)
 		small.Answer = append(small.Answer, dnsservertest.NewA("rl.example.", 60, netip.MustParseAddr("192.0.2.1")))
@@ -746,8 +778,8 @@ func (e *c20Env) exRateLimit(c *configuration) (unsafe []string) {
 			if err != nil {
 				panic(fmt.Errorf("error: %w", err))
 			}
-			if drop {
-				panic("unserviceable: the first request of a fresh client is dropped")
+			if drop && mustPass {
+				panic("unserviceable: the very first request is dropped")
 			}
 		})
 		if u != "" {
@@ -826,9 +858,6 @@ func (e *c20Env) exService(c *configuration, sockets bool) (unsafe []string) {
 			Name: "verif_dns", Protocol: srvProtoDNS, LinkedIPEnabled: true,
 			BindAddresses: []netip.AddrPort{netip.MustParseAddrPort("127.0.0.1:0")},
 		}, {
-			Name: "verif_dot", Protocol: srvProtoTLS,
-			BindAddresses: []netip.AddrPort{netip.MustParseAddrPort("127.0.0.1:0")},
-		}, {
 			Name: "verif_doq", Protocol: srvProtoQUIC,
 			BindAddresses: []netip.AddrPort{netip.MustParseAddrPort("127.0.0.1:0")},
 		}}
@@ -888,7 +917,7 @@ func (e *c20Env) exService(c *configuration, sockets bool) (unsafe []string) {
 		{"2001:db8:7::1", "small.example.", net.ParseIP("2001:db8:7::")},
 		{"5.6.7.8", "small.example.", nil}, {"5.6.7.8", "big.example.", nil},
 	}
-	seen := map[string]bool{}
+	seen := map[bool]bool{} // address family -> a query was already sent
 	for _, x := range qs {
 		for _, qt := range []uint16{dns.TypeA, dns.TypeTXT} {
 			req := c20Msg(x.name, qt, x.ecs)
@@ -902,11 +931,11 @@ func (e *c20Env) exService(c *configuration, sockets bool) (unsafe []string) {
 				if err != nil {
 					panic(fmt.Errorf("error: %w", err))
 				}
-				if !seen[x.client] && rw.Msg() == nil {
-					panic("unserviceable: the first query of a fresh client got no answer")
+				if !seen[raddr.IP.To4() != nil] && rw.Msg() == nil {
+					panic("unserviceable: the very first query got no answer")
 				}
 			})
-			seen[x.client] = true
+			seen[raddr.IP.To4() != nil] = true
 			if u != "" {
 				unsafe = append(unsafe, u)
 			}
@@ -916,7 +945,17 @@ func (e *c20Env) exService(c *configuration, sockets bool) (unsafe []string) {
 	if len(unsafe) > 0 || !sockets {
 		return unsafe
 	}
-	return append(unsafe, e.exSockets(c, b, handlers, srvGrps, errColl)...)
+	// An unserviceable limit fails every time; a lost datagram or two
+	// SO_REUSEPORT sockets that were given the same ephemeral port do not.
+	var su []string
+	for attempt := 0; attempt < 3; attempt++ {
+		prometheus.DefaultRegisterer = prometheus.NewRegistry()
+		su = e.exSockets(c, b, handlers, srvGrps, errColl)
+		if len(su) == 0 {
+			break
+		}
+	}
+	return append(unsafe, su...)
 }
 
 func (e *c20Env) handlersConfig(
@@ -1016,10 +1055,14 @@ func (e *c20Env) handlersConfig(
 	}
 }
 
-// exSockets starts the real dnssvc.Service (plain DNS, DoT and DoQ listeners
-// built by dnssvc.NewListener from the converted configuration, with the
-// configured connection limiter and socket options) on loopback and sends one
-// UDP query, two pipelined TCP queries and one DoQ query.
+// exSockets starts the real dnssvc.Service (a plain-DNS and a DoQ listener built
+// by dnssvc.NewListener from the converted configuration, with the configured
+// connection limiter and socket options) on loopback and sends one UDP query,
+// two pipelined TCP queries and one DoQ query.  There is exactly one stream
+// listener: how many listeners a connection limit can serve is a relation
+// between connection_limit and the bind addresses of the server groups which
+// the documentation only recommends ("resume should be greater than the number
+// of bound addresses") and which is not part of this check.
 func (e *c20Env) exSockets(
 	c *configuration,
 	b *builder,
@@ -1031,34 +1074,47 @@ func (e *c20Env) exSockets(
 	lsnrs := map[string]dnssvc.Listener{}
 	var svc *dnssvc.Service
 	started := false
-	u := c20Recover("starting the DNS service", func() {
-		var err error
-		svc, err = dnssvc.New(&dnssvc.Config{
-			Handlers: handlers,
-			NewListener: func(s *agd.Server, bc dnsserver.ConfigBase, nonDNS http.Handler) (l dnssvc.Listener, err error) {
-				l, err = dnssvc.NewListener(s, bc, nonDNS)
-				if err == nil {
-					lsnrs[string(s.Name)] = l
-				}
-				return l, err
-			},
-			Cloner:           b.cloner,
-			ControlConf:      b.controlConf,
-			ConnLimiter:      b.connLimit,
-			ErrColl:          errColl,
-			NonDNS:           http.NotFoundHandler(),
-			MetricsNamespace: "verif",
-			ServerGroups:     srvGrps,
-			HandleTimeout:    c.DNS.HandleTimeout.Duration,
+	u := ""
+	// The plain-DNS server binds UDP port 0 and then the same TCP port, which
+	// may be taken: retry (as dnsservertest does).
+	for attempt := 0; attempt < 8; attempt++ {
+		u = c20Recover("starting the DNS service", func() {
+			var err error
+			svc, err = dnssvc.New(&dnssvc.Config{
+				Handlers: handlers,
+				NewListener: func(s *agd.Server, bc dnsserver.ConfigBase, nonDNS http.Handler) (l dnssvc.Listener, err error) {
+					l, err = dnssvc.NewListener(s, bc, nonDNS)
+					if err == nil {
+						lsnrs[string(s.Name)] = l
+					}
+					return l, err
+				},
+				Cloner:           b.cloner,
+				ControlConf:      b.controlConf,
+				ConnLimiter:      b.connLimit,
+				ErrColl:          errColl,
+				NonDNS:           http.NotFoundHandler(),
+				MetricsNamespace: "verif",
+				ServerGroups:     srvGrps,
+				HandleTimeout:    c.DNS.HandleTimeout.Duration,
+			})
+			if err != nil {
+				panic(fmt.Errorf("dnssvc.New: %w", err))
+			}
+			if err = svc.Start(ctx); err != nil {
+				panic(fmt.Errorf("start: %w", err))
+			}
+			started = true
 		})
-		if err != nil {
-			panic(fmt.Errorf("dnssvc.New: %w", err))
+		if !strings.Contains(u, "address already in use") {
+			break
 		}
-		if err = svc.Start(ctx); err != nil {
-			panic(fmt.Errorf("start: %w", err))
-		}
-		started = true
-	})
+		// listeners started before the failing one stay open; shut down
+		sctx, cancel := context.WithTimeout(ctx, time.Second)
+		_ = c20Recover("shutdown", func() { _ = svc.Shutdown(sctx) })
+		cancel()
+		prometheus.DefaultRegisterer = prometheus.NewRegistry()
+	}
 	defer func() {
 		if svc != nil && started {
 			sctx, cancel := context.WithTimeout(ctx, 3*time.Second)
@@ -1069,7 +1125,12 @@ func (e *c20Env) exSockets(
 	if u != "" {
 		return []string{u}
 	}
-	const wait = 3 * time.Second
+	const wait = 2 * time.Second
+	if a, b := lsnrs["verif_dns"], lsnrs["verif_doq"]; a != nil && b != nil {
+		if pa, pb := a.LocalUDPAddr().(*net.UDPAddr), b.LocalUDPAddr().(*net.UDPAddr); pa != nil && pb != nil && pa.Port == pb.Port {
+			return []string{"environment: both UDP listeners were given port " + strconv.Itoa(pa.Port)}
+		}
+	}
 	// UDP
 	if l := lsnrs["verif_dns"]; l != nil {
 		if err := c20UDPQuery(l.LocalUDPAddr().String(), wait); err != nil {
@@ -1077,12 +1138,6 @@ func (e *c20Env) exSockets(
 		}
 		if err := c20TCPQueries(l.LocalTCPAddr().String(), wait, nil); err != nil {
 			unsafe = append(unsafe, "unserviceable: two pipelined TCP queries to the plain-DNS server: "+err.Error())
-		}
-	}
-	cliTLS := e.tlsSrv.Clone()
-	if l := lsnrs["verif_dot"]; l != nil {
-		if err := c20TCPQueries(l.LocalTCPAddr().String(), wait, cliTLS); err != nil {
-			unsafe = append(unsafe, "unserviceable: two pipelined DoT queries: "+err.Error())
 		}
 	}
 	if l := lsnrs["verif_doq"]; l != nil {
@@ -1263,6 +1318,28 @@ func TestVerifC20(t *testing.T) {
 	}
 	// the distributed example itself
 	emit(nil)
+	// Replay / focus mode: VERIF_C20_FOCUS="field=class[:value],field=class" runs
+	// only that vector, VERIF_N times.
+	if focus := os.Getenv("VERIF_C20_FOCUS"); focus != "" {
+		var abs []c20Abs
+		e.force = map[string]string{}
+		for _, it := range strings.Split(focus, ",") {
+			fc := strings.SplitN(it, "=", 2)
+			f := c20FieldByPath[fc[0]]
+			if f == nil || len(fc) != 2 {
+				t.Fatalf("bad focus item %q", it)
+			}
+			cv := strings.SplitN(fc[1], ":", 2)
+			if len(cv) == 2 {
+				e.force[f.Path] = cv[1]
+			}
+			abs = append(abs, c20Abs{f, cv[0]})
+		}
+		for n := 0; n < vhEnvInt("VERIF_N", 1); n++ {
+			emit(abs)
+		}
+		return
+	}
 	// every field in every class, several concretisations each
 	reps := vhEnvInt("VERIF_REPS", 2)
 	var singles []c20Abs
